@@ -487,6 +487,8 @@ C19_ITEMS = {
     "PC": {"pre": ["pc"], "body": [("take", "c")]},
 }
 
+C19_ITEMS["PD"] = {"pre": ["pd"], "body": [("take", "d1"), ("take", "d2"), ("take", "d3")]}
+C19_WEIGHTS4 = [(1, 1, 1, 1), (1, 2, 3, 0.5), (3, 1, 1, 2)]
 C19_WEIGHTS2 = [(1, 1), (1, 2), (3, 1), (0.5, 1), (2, 0.5)]
 C19_WEIGHTS3 = [(1, 1, 1), (1, 2, 3), (2, 2, 1), (0.5, 1, 3), (3, 0.5, 0.5)]
 
@@ -494,7 +496,7 @@ C19_WEIGHTS3 = [(1, 1, 1), (1, 2, 3), (2, 2, 1), (0.5, 1, 3), (3, 0.5, 0.5)]
 def c19_programs(tier):
     thorough = tier == "thorough"
     idx = 0
-    names = ["PA", "PB", "PC"]
+    names = ["PA", "PB", "PC", "PD"]
 
     def emit(body):
         nonlocal idx
@@ -506,7 +508,7 @@ def c19_programs(tier):
         return i, prog
 
     for kind in ("choose", "shuffle"):
-        for n, wsets in ((2, C19_WEIGHTS2), (3, C19_WEIGHTS3)):
+        for n, wsets in ((2, C19_WEIGHTS2), (3, C19_WEIGHTS3)) + (((4, C19_WEIGHTS4),) if thorough else ()):
             for wi, ws in enumerate(wsets):
                 forms = ("dict", "list") if wi == 0 else ("dict",)
                 for form in forms:
